@@ -30,6 +30,8 @@ import (
 	ethtypes "github.com/ethereum/go-ethereum/core/types"
 	"github.com/ethereum/go-ethereum/crypto"
 
+	chainapp "github.com/EscanBE/evermint/v12/app"
+	"github.com/EscanBE/evermint/v12/app/params"
 	cpctypes "github.com/EscanBE/evermint/v12/x/cpc/types"
 	evmtypes "github.com/EscanBE/evermint/v12/x/evm/types"
 
@@ -141,6 +143,17 @@ func Generate(seed int64, ti int, blocks int, out *trace.W, stats map[string]int
 		o.CpcWhitelist = []string{chain.NewAcct("a1").Acc().String()}
 		o.Contracts = append(o.Contracts, chain.GenContract{Addr: ChurnAddr, Code: churnCode})
 		o.Contracts = append(o.Contracts, chain.GenContract{Addr: SpinAddr, Code: spinCode})
+		if ti == 2 {
+			o.MaxGas = -1
+			// at most two unbonding entries per (delegator, validator): the third un-delegation of the history is refused by
+			// x/staking - an error path whose text ends up in the transaction result
+			o.Patch = func(enc params.EncodingConfig, gs chainapp.GenesisState) {
+				var sg stakingtypes.GenesisState
+				enc.Codec.MustUnmarshalJSON(gs[stakingtypes.ModuleName], &sg)
+				sg.Params.MaxEntries = 2
+				gs[stakingtypes.ModuleName] = enc.Codec.MustMarshalJSON(&sg)
+			}
+		}
 		if ti == 0 {
 			// an empty vesting account that is expired by every header time (year 2100) but not yet by the wall clock
 			wallEnd = time.Now().Unix() + 3
@@ -195,6 +208,18 @@ func Generate(seed int64, ti int, blocks int, out *trace.W, stats map[string]int
 			txs = append(txs, bz)
 			nextNonce["a0"] = sp.Nonce + 1
 			stats["wall-clock-sensitive-tx"]++
+		}
+		if ti == 2 && b >= 1 {
+			// the validator operator a0 un-delegates through the staking precompile, one entry per block
+			a := c.Accts[0]
+			seq := c.Seq(a.Addr)
+			to := cpctypes.CpcStakingFixedAddress
+			data := append(crypto.Keccak256([]byte("undelegate(address,uint256)"))[:4], common.LeftPadBytes(a.Addr.Bytes(), 32)...)
+			data = append(data, common.LeftPadBytes(big.NewInt(1).Bytes(), 32)...)
+			txd := &ethtypes.LegacyTx{Nonce: seq, GasPrice: big.NewInt(baseFee + 2), Gas: 500000, To: &to, Value: big.NewInt(0), Data: data}
+			txs = append(txs, c.EthTx(a, txd))
+			nextNonce["a0"] = seq + 1
+			stats["cpc-staking-undelegate"]++
 		}
 		if ti == 1 && b == 1 && o.MaxGas < 0 {
 			// one long-running message (12M gas burnt in a tight loop, ends out of gas): seconds of wall time on a tracing node
